@@ -604,9 +604,10 @@ func (e *exec) prepFst(op, key string) (func(), finishFn) {
 				if err != nil {
 					return classify(err), false
 				}
-				if iterErr != nil {
-					return "acc oserr", false
-				}
+				// The walk's error is stored by iterator.Finish *after* it closed Next (DESIGN §7 #17, a C02 matter),
+				// so a consumer cannot read it reliably. A failed walk (missing walk root) delivers no keys, and that is
+				// what is compared; only the synchronous error of Query itself is "acc oserr".
+				_ = iterErr
 				out := make([]string, len(keys))
 				for i, k := range keys {
 					out[i] = s.virt(filepath.Join(s.root, k))
